@@ -1,11 +1,12 @@
 (* C03 / C06 as readable predicates over the history of a connection (the [trace] of the model). *)
 Require Import AV.Lib.Base AV.H1.ConnRec AV.H1.ConnState.
 
-(* a response head that ends the connection: encoded with close semantics, or an error response
-   to a malformed / too large / too slow request head *)
+(* a response head that ends the connection: encoded with close semantics, or the dispatcher's own
+   error response (who = None) to a malformed / too large / too slow request head *)
 Definition closing_ev (e : tev) : bool :=
   match e with
-  | THead _ status _ _ k => is_close k || (status =? 400) || (status =? 408) || (status =? 431)
+  | THead who status _ _ k =>
+      is_close k || (match who with None => (status =? 400) || (status =? 408) || (status =? 431) | Some _ => false end)
   | _ => false
   end.
 (* events that put a new response on the wire or hand a request to the service *)
